@@ -12,6 +12,7 @@ import (
 	"sort"
 	"strings"
 	"sync"
+	"time"
 )
 
 // ---- toolchain verdicts --------------------------------------------------------------------------
@@ -332,13 +333,19 @@ func CheckC13(run *Run) {
 	reqs = append(reqs, RawRequest())
 	reqs = append(reqs, HostileCatalogue()...)
 	reqs = append(reqs, SameKindCatalogue()...)
+	reqs = append(reqs, ForeignTypeCatalogue()...)
+	reqs = append(reqs, HostileTextBuildCatalogue()...)
 	nRandom, nSameKind := 12, 4
 	if run.Tier == "thorough" {
 		nRandom, nSameKind = 300, 80
 	}
 	reqs = append(reqs, RandomBuildRequests(rand.New(rand.NewSource(run.Seed+13)), nRandom)...)
 	reqs = append(reqs, RandomSameKindRequests(rand.New(rand.NewSource(run.Seed+1313)), nSameKind)...)
+	t0 := time.Now()
+	phase := map[string]float64{}
+	mark := func(n string) { phase[n] = time.Since(t0).Seconds(); t0 = time.Now() }
 	s := NewSession(run, reqs)
+	mark("generate")
 	w, err := NewGoWork(fmt.Sprintf("%s-%s-%s", run.Property, run.Tier, run.TreeHash))
 	if err != nil {
 		run.Fatal("%v", err)
@@ -348,7 +355,10 @@ func CheckC13(run *Run) {
 		g       *GenOutput
 		refused string
 		dirs    map[string]string
+		multi   []string // package directories of a request whose generated files span several Go packages
 	}
+	subWorks := map[string]*GoWork{}
+	subDirs := map[string][]string{}
 	var cases []*pkgCase
 	var dirs []string
 	tsFiles := map[string]string{}
@@ -366,6 +376,54 @@ func CheckC13(run *Run) {
 		}
 		if pc.refused != "" {
 			continue
+		}
+		// user packages the request imports without generating them (a shared common/v1): their standard
+		// protobuf Go output has to be there for the importing package to compile
+		deps, err := depPackageFiles(g, r)
+		if err != nil {
+			run.Fatal("%s: %v", r.ID, err)
+		}
+		if pkgDirs := generatedPkgDirs(r); len(pkgDirs) > 1 {
+			// generated files in several Go packages: they import each other by their declared import paths, so
+			// each plugin subset gets a work module of its own and the files keep their names
+			for _, sub := range c13Subsets {
+				files, ok := subsetFiles(s, g, sub)
+				if !ok {
+					run.Fatal("no files for %s/%s", r.ID, sub)
+				}
+				if subWorks[sub] == nil {
+					sw, err := NewGoWork(fmt.Sprintf("%s-%s-%s-%s", run.Property, run.Tier, run.TreeHash, sub))
+					if err != nil {
+						run.Fatal("%v", err)
+					}
+					subWorks[sub] = sw
+				}
+				for n := range files {
+					if !pkgDirs[strings.SplitN(n, "/", 2)[0]] {
+						run.Fatal("%s: generated file %q outside the request's package directories", r.ID, n)
+					}
+				}
+				if err := subWorks[sub].WritePackage(files); err != nil {
+					run.Fatal("%v", err)
+				}
+				if err := subWorks[sub].WritePackage(deps); err != nil {
+					run.Fatal("%v", err)
+				}
+				pc.dirs[sub] = sub + "_" + r.ID
+				for d := range pkgDirs {
+					subDirs[sub] = append(subDirs[sub], d)
+					pc.multi = append(pc.multi, d)
+				}
+			}
+			for _, p := range []string{"ts-client", "ts-server"} {
+				for n, c := range g.Results[p].Files {
+					tsFiles[r.ID+"/"+p+"/"+n] = c
+				}
+			}
+			continue
+		}
+		if err := w.WritePackage(deps); err != nil {
+			run.Fatal("%v", err)
 		}
 		for _, sub := range c13Subsets {
 			files, ok := subsetFiles(s, g, sub)
@@ -393,14 +451,104 @@ func CheckC13(run *Run) {
 			}
 		}
 	}
+	// (a)+(d): the struct cases only need protoc-gen-go's output: the model evaluates them while the packages build
+	var scs []CoqCase
+	var srs []*CaseResult
+	for _, pc := range cases {
+		if pc.refused != "" {
+			continue
+		}
+		r := pc.r
+		structs := map[string][]goStructField{}
+		for n, c := range pc.g.PB.Files {
+			if strings.HasSuffix(n, ".pb.go") {
+				for k, v := range parseGoStructs(c) {
+					structs[k] = v
+				}
+			}
+		}
+		for _, f := range r.Files {
+			if !f.Generate {
+				continue
+			}
+			terms := coqMessageTerms(f)
+			var walk func(prefix []string, ms []*Message)
+			idx := 0
+			walk = func(prefix []string, ms []*Message) {
+				for _, m := range ms {
+					p := append(append([]string{}, prefix...), m.Name)
+					term := terms[idx]
+					idx++
+					if len(m.Fields) > 0 {
+						so := structObs(structs, goMsgIdent(p), m)
+						srs = append(srs, &CaseResult{ID: r.ID + ":" + strings.Join(p, "."), Family: "go-struct", Input: map[string]any{"schema": r.ID, "message": strings.Join(p, ".")},
+							Obs: so, OracleHolds: true, NonTrivial: true, Features: []string{"struct"}})
+						scs = append(scs, CoqCase{Term: term, Obs: so})
+					}
+					walk(p, m.Nested)
+				}
+			}
+			walk(nil, f.Messages)
+		}
+	}
+	imports := "From Sebuf Require Import Text Json Schema Emit.\n"
+	var vs2 []CoqVerdict
+	var err2 error
+	structsDone := make(chan struct{})
+	go func() {
+		defer close(structsDone)
+		vs2, err2 = CoqRun(run.WorkDir, "c13s", imports, "", "message", "predict_struct", scs, 4)
+	}()
+	// the per-subset modules of the multi-package requests are built while the main module builds
+	subVerdicts := map[string]map[string]*ToolVerdict{}
+	var swg sync.WaitGroup
+	var smu sync.Mutex
+	for _, sub := range c13Subsets {
+		if subWorks[sub] == nil {
+			continue
+		}
+		sort.Strings(subDirs[sub])
+		swg.Add(1)
+		go func(sub string) {
+			defer swg.Done()
+			v := subWorks[sub].BuildVet(subDirs[sub], 2)
+			smu.Lock()
+			subVerdicts[sub] = v
+			smu.Unlock()
+		}(sub)
+	}
 	verdicts := w.BuildVet(dirs, 14)
+	swg.Wait()
+	mark("build+vet")
+	for _, sub := range c13Subsets {
+		if subWorks[sub] == nil {
+			continue
+		}
+		sv := subVerdicts[sub]
+		for _, pc := range cases {
+			if len(pc.multi) == 0 {
+				continue
+			}
+			seen := map[string]bool{}
+			var parts []*ToolVerdict
+			for _, d := range pc.multi {
+				if !seen[d] {
+					seen[d] = true
+					parts = append(parts, sv[d])
+				}
+			}
+			verdicts[pc.dirs[sub]] = mergeVerdicts(parts)
+		}
+		dirs = append(dirs, subDirs[sub]...)
+	}
 	tsLoads, err := LoadTSModules(filepath.Join(run.WorkDir, "ts"), tsFiles)
 	if err != nil {
 		run.Fatal("%v", err)
 	}
+	mark("ts-load")
 
-	var ccs, scs []CoqCase
-	var crs, srs []*CaseResult
+	var ccs []CoqCase
+	var crs []*CaseResult
 	for _, pc := range cases {
 		r := pc.r
 		if pc.refused != "" {
@@ -454,41 +602,8 @@ func CheckC13(run *Run) {
 		crs = append(crs, cr)
 		ccs = append(ccs, CoqCase{Term: CoqSchema(r), Obs: obs})
 
-		// (a)+(d): struct fields as protoc-gen-go declared them
-		structs := map[string][]goStructField{}
-		for n, c := range pc.g.PB.Files {
-			if strings.HasSuffix(n, ".pb.go") {
-				for k, v := range parseGoStructs(c) {
-					structs[k] = v
-				}
-			}
-		}
-		for _, f := range r.Files {
-			if !f.Generate {
-				continue
-			}
-			terms := coqMessageTerms(f)
-			var walk func(prefix []string, ms []*Message)
-			idx := 0
-			walk = func(prefix []string, ms []*Message) {
-				for _, m := range ms {
-					p := append(append([]string{}, prefix...), m.Name)
-					term := terms[idx]
-					idx++
-					if len(m.Fields) > 0 {
-						so := structObs(structs, goMsgIdent(p), m)
-						srs = append(srs, &CaseResult{ID: r.ID + ":" + strings.Join(p, "."), Family: "go-struct", Input: map[string]any{"schema": r.ID, "message": strings.Join(p, ".")},
-							Obs: so, OracleHolds: true, NonTrivial: true, Features: []string{"struct"}})
-						scs = append(scs, CoqCase{Term: term, Obs: so})
-					}
-					walk(p, m.Nested)
-				}
-			}
-			walk(nil, f.Messages)
-		}
 	}
-	imports := "From Sebuf Require Import Text Json Schema Emit.\n"
-	vs, err := CoqRun(run.WorkDir, "c13", imports, "", "schema", "predict_C13", ccs, 8)
+	vs, err := CoqRun(run.WorkDir, "c13", imports, "", "schema", "predict_C13", ccs, 14)
 	if err != nil {
 		run.Fatal("model evaluation: %v", err)
 	}
@@ -499,14 +614,16 @@ func CheckC13(run *Run) {
 		}
 		run.Results = append(run.Results, cr)
 	}
-	vs2, err := CoqRun(run.WorkDir, "c13s", imports, "", "message", "predict_struct", scs, 8)
-	if err != nil {
-		run.Fatal("model evaluation: %v", err)
+	<-structsDone
+	if err2 != nil {
+		run.Fatal("model evaluation: %v", err2)
 	}
 	for i, cr := range srs {
 		cr.Apply(vs2[i])
 		run.Results = append(run.Results, cr)
 	}
+	mark("model")
+	run.Extra["phase_seconds"] = phase
 	run.Extra["packages_built"] = len(dirs)
 	run.Extra["ts_modules_loaded"] = len(tsFiles)
 	run.Extra["ts_runtime"] = NodeBin + " --experimental-strip-types"
@@ -526,4 +643,85 @@ func firstDiag(out string) string {
 		}
 	}
 	return firstLine(out)
+}
+
+// generatedPkgDirs: the directories (first path element of the emitted file names, = import path below the
+// work module) of the Go packages the request's generated files belong to.
+func generatedPkgDirs(r *Request) map[string]bool {
+	out := map[string]bool{}
+	for _, f := range r.Files {
+		if f.Generate {
+			out[strings.TrimPrefix(goImportPath(f.GoPackage), "verifgen/")] = true
+		}
+	}
+	return out
+}
+
+// depPackageFiles runs protoc-gen-go on the user files of the request that are imported but not generated
+// and belong to another Go package than the generated ones.
+func depPackageFiles(g *GenOutput, r *Request) (map[string]string, error) {
+	gen := generatedPkgDirs(r)
+	var paths []string
+	for _, f := range r.Files {
+		dir := strings.TrimPrefix(goImportPath(f.GoPackage), "verifgen/")
+		if f.Generate || gen[dir] {
+			continue
+		}
+		if !strings.HasPrefix(f.Path, dir+"/") || strings.Count(f.Path, "/") != 1 {
+			// an unrelated file nobody imports (C15's variants) is not needed for the build
+			used := false
+			for _, o := range r.Files {
+				for _, i := range o.Imports {
+					if i == f.Path {
+						used = true
+					}
+				}
+			}
+			if !used {
+				continue
+			}
+			return nil, fmt.Errorf("imported file %s is not in the directory of its Go package %s", f.Path, f.GoPackage)
+		}
+		paths = append(paths, f.Path)
+	}
+	if len(paths) == 0 || g.Built == nil {
+		return nil, nil
+	}
+	pg, err := ProtocGenGo()
+	if err != nil {
+		return nil, err
+	}
+	res := RunPlugin(pg, "go", MakeCGR(g.Built.All, paths, "paths=source_relative"), 30*time.Second, 4096)
+	if res.Exit != "ok" {
+		return nil, fmt.Errorf("protoc-gen-go on imported files: %s %s", res.Exit, res.Error)
+	}
+	return res.Files, nil
+}
+
+// mergeVerdicts: a request whose files span several packages builds when each of them does.
+func mergeVerdicts(parts []*ToolVerdict) *ToolVerdict {
+	v := &ToolVerdict{Build: true, Vet: true, Classes: []string{}}
+	set := map[string]bool{}
+	for _, p := range parts {
+		if p == nil {
+			continue
+		}
+		v.Build = v.Build && p.Build
+		for _, c := range p.Classes {
+			set[c] = true
+		}
+		if p.Output != "" {
+			v.Output += p.Output + "\n"
+		}
+	}
+	for _, p := range parts {
+		if p != nil {
+			v.Vet = v.Vet && v.Build && p.Vet
+		}
+	}
+	for c := range set {
+		v.Classes = append(v.Classes, c)
+	}
+	sort.Strings(v.Classes)
+	return v
 }
